@@ -60,17 +60,18 @@ PROPS['C05'] = {
 
 PROPS['C07'] = {
     'level': 'proof',
-    'units': ['C07/avl', 'C07/iitree'],
+    'units': ['C07/avl', 'C07/iitree', 'C07/iitree64'],
     'kani': [],
     'oracle': 'C07',
     'decided': ['AVL interval tree: Node::insert preserves the search-tree/max/height/balance invariant and adds exactly one entry to the multiset of entries (rotations, repair, update_max, update_height under contract)',
                 'IntervalTreeIterator::next and IntervalTreeIteratorMut::next yield exactly the pending overlapping entries, each once, and terminate',
                 'intersect == half-open overlap',
                 'IntervalTree::{insert, find, find_mut}: insert adds exactly the entry and keeps the invariant; find/find_mut start the iterator with exactly the overlapping entries pending',
-                'ArrayBackedIntervalTree::insert appends the entry and invalidates the index (un-indexed queries are refused)'],
-    'undecided': ['array-backed tree index()/find (cgranges level arithmetic, capturing closures, sort_by_key)', 'AnnotMap (HashMap + bio_types::Loc delegation)', 'IntervalTree::new / FromIterator (Default/collect plumbing)'],
-    'trusted': ['generic N: lawful total order and faithful Clone are explicit preconditions', 'cmp::max, i64::abs, Option::map_or std specs (assume_specification)'],
-    'level_text': 'Verus proves the AVL tree invariant, multiset-of-entries postconditions and both query iterators for generic key and data types; the array-backed tree and AnnotMap are not decided.',
+                'ArrayBackedIntervalTree::insert appends the entry and invalidates the index (un-indexed queries are refused)',
+                'array-backed (implicit, cgranges-style) interval tree at key type u64 (unit C07/iitree64; default, new, insert, index, index_core, find, find_into, max3, StackCell::empty on the real code): index_core gives every real node of every level the maximum end of its subtree clipped to the array, including the imaginary-node bookkeeping (last_i/last_value) and max_level = floor(log2 n); index keeps the multiset of entries and makes the tree queryable; find_into/find return, in storage order and each exactly once, exactly the entries with start < q.end && q.start < end (explicit-stack traversal: consecutive pending ranges, pruning by subtree maximum and by sortedness, stack depth <= max_level + 1 <= 62, all shifts and index computations in range); insert after indexing invalidates the index'],
+    'undecided': ['array-backed tree for key types other than u64 (the proof instantiates N = u64; the code is generic over N: Ord + Copy), FromIterator plumbing', 'AnnotMap (HashMap + bio_types::Loc delegation)', 'IntervalTree::new / FromIterator (Default/collect plumbing)'],
+    'trusted': ['generic N: lawful total order and faithful Clone are explicit preconditions', 'cmp::max, i64::abs, Option::map_or std specs (assume_specification)', 'iitree64: sort_entries_by_start stub standing for entries.sort_by_key(|e| e.interval.start) (permutation, ascending by start), vstd Ord::max for u64, cmp::min spec, vstd shift/pow2 lemmas'],
+    'level_text': 'Verus proves the AVL tree invariant, multiset-of-entries postconditions and both query iterators for generic key and data types, and the array-backed implicit tree (index construction and stack-based query) at key type u64; AnnotMap is not decided.',
     'level_note': 'Trusted: Verus/Z3; N: Ord lawful and Clone faithful (stated requires); std specs for max/abs; wrappers and the other two containers undecided.',
 }
 
